@@ -104,7 +104,7 @@ def run(prog, rep, tier):
         a = b.term.args[2]
         ok = a.place is not None and must_derive(body, a.place[0], rng_src(seen), why=why) and bool(seen)
         rep.ob('R07.2', ok, 'R07.2|%s|csprng-arg' % body.nkey, 'csprng = ChaCha20Rng::from_os_rng()' if ok else 'csprng handed to store_key_for_multi_recipients is not an OS-seeded generator: %s' % '; '.join(why), body.loc(b.idx))
-    sk = one_body(prog, rep, 'R07.2', 'mla', prefix='crypto::ecc::store_key_for_multi_recipients')
+    sk = one_body(prog, rep, 'R07.2', 'mla', exact='crypto::ecc::store_key_for_multi_recipients')
     if sk is not None and sk.kind != 'Closure':
         # ephemeral = StaticSecret::from(bytes) ; bytes filled by fill_bytes(csprng)
         froms = [b for b in sk.calls() if b.term.cmethod == 'from' and 'StaticSecret' in b.term.callee.get('self_ty', '')]
